@@ -13,6 +13,8 @@ CONSTANTS Conns, Reqs, ConnOf,   \* ConnOf[r]: the connection request r is sent 
           Q,                     \* job queue capacity
           LateRelease,
           Calls,                 \* the calls of Shutdown on this server (overlapping or one after the other), each with its own context
+          SelfNotify,            \* TRUE: a recv loop that ends while the server is closing writes the close notification itself if the
+                                 \* poller has not got to its connection yet (repair); FALSE: only the poller notifies
           RT                     \* a read timeout is configured (FALSE = default: a blocked read is only woken by data or by the close notification)
 VARIABLES st,        \* per request: "unsent" | "sent" | "read" | "running" | "invoked" | "written"
           inbuf,     \* per connection: requests sent and not yet read, FIFO
@@ -57,14 +59,15 @@ Hand(c) ==
   /\ UNCHANGED <<inbuf, sock, numInvoke, notified, isClosed, apc, dpc, dj, spc, expired, lateWrite>>
 \* once the server is closing, a read that times out with an empty buffer ends the loop
 RecvReturn(c) == /\ rpc[c] = "reading"
-                 /\ \/ isClosed /\ inbuf[c] = <<>> /\ (RT \/ notified[c])
+                 /\ \/ isClosed /\ inbuf[c] = <<>> /\ (RT \/ notified[c] \/ SelfNotify)   \* (a loop that iterates after the close began runs on a 100 ms deadline)
                     \/ sock[c] = "closed"                       \* the poller closed the socket: the read fails, unread requests are dropped
                  /\ rpc' = [rpc EXCEPT ![c] = "draining"] /\ inbuf' = [inbuf EXCEPT ![c] = <<>>]
                  /\ UNCHANGED <<hr, st, sock, numInvoke, notified, isClosed, apc, jobQ, dpc, dj, spc, expired, lateWrite>>
 \* deferred: wait until no handler of this connection is outstanding, then close it
 RecvClose(c) == /\ rpc[c] = "draining" /\ numInvoke[c] = 0
                 /\ rpc' = [rpc EXCEPT ![c] = "closed"] /\ sock' = [sock EXCEPT ![c] = "closed"]
-                /\ UNCHANGED <<hr, st, inbuf, numInvoke, notified, isClosed, apc, jobQ, dpc, dj, spc, expired, lateWrite>>
+                /\ notified' = [notified EXCEPT ![c] = @ \/ (SelfNotify /\ isClosed)]
+                /\ UNCHANGED <<hr, st, inbuf, numInvoke, isClosed, apc, jobQ, dpc, dj, spc, expired, lateWrite>>
 \* ---- pool dispatcher
 DTake == /\ N > 0 /\ dpc = "sel" /\ jobQ # <<>> /\ dj' = Head(jobQ) /\ jobQ' = Tail(jobQ) /\ dpc' = "hold"
          /\ UNCHANGED <<hr, st, inbuf, rpc, sock, numInvoke, notified, isClosed, apc, spc, expired, lateWrite>>
